@@ -1,13 +1,675 @@
-//! pure-function scenarios (rect, colour, graphics) and the 12.48in driver — filled in later
-use crate::scen::Scenario;
+//! pure-function scenarios: rect.rs, color.rs, graphics.rs, buffer_len — the REAL functions are
+//! called and their results printed canonically (`X <op-index> <text>`).
+
+use crate::scen::{prng_bytes, Scenario};
 use crate::sim::Shared;
+use embedded_graphics_core::pixelcolor::raw::{RawU1, RawU2, RawU4};
+use embedded_graphics_core::pixelcolor::{BinaryColor, Rgb555, Rgb565, Rgb888};
+use embedded_graphics_core::prelude::*;
+use epd_waveshare::color::{Color, ColorType, OctColor, TriColor};
+use epd_waveshare::graphics::{Display, DisplayRotation, VarDisplay};
+use epd_waveshare::rect::Rect;
+use std::fmt::Write as _;
+use std::panic::{catch_unwind, AssertUnwindSafe};
+
+fn mix(h: u64, v: u64) -> u64 {
+    (h ^ v).wrapping_mul(0x100000001b3)
+}
+const H0: u64 = 0xcbf29ce484222325;
+
+fn num(s: &str) -> u64 {
+    s.parse::<u64>().unwrap_or_else(|_| {
+        eprintln!("HARNESS-ERROR bad number `{}`", s);
+        std::process::exit(3)
+    })
+}
+fn inum(s: &str) -> i64 {
+    s.parse::<i64>().unwrap_or_else(|_| {
+        eprintln!("HARNESS-ERROR bad number `{}`", s);
+        std::process::exit(3)
+    })
+}
+
+fn rect_str(r: Result<Rect, ()>) -> String {
+    match r {
+        Ok(r) => format!("{}.{}.{}.{}", r.x, r.y, r.w, r.h),
+        Err(()) => "panic".into(),
+    }
+}
+
+fn cidx(c: Color) -> u8 {
+    match c {
+        Color::Black => 0,
+        Color::White => 1,
+    }
+}
+fn tidx(c: TriColor) -> u8 {
+    match c {
+        TriColor::Black => 0,
+        TriColor::White => 1,
+        TriColor::Chromatic => 2,
+    }
+}
+fn oidx(c: OctColor) -> u8 {
+    c.get_nibble()
+}
+const COLORS: [Color; 2] = [Color::Black, Color::White];
+const TRIS: [TriColor; 3] = [TriColor::Black, TriColor::White, TriColor::Chromatic];
+const OCTS: [OctColor; 8] = [
+    OctColor::Black,
+    OctColor::White,
+    OctColor::Green,
+    OctColor::Blue,
+    OctColor::Red,
+    OctColor::Yellow,
+    OctColor::Orange,
+    OctColor::HiZ,
+];
+
+fn color_domain(dom: &str, a: &[String]) -> String {
+    let mut o = String::new();
+    match dom {
+        "bytes" => {
+            for v in 0..=255u8 {
+                match catch_unwind(|| Color::from(v)) {
+                    Ok(c) => {
+                        let _ = write!(o, "{}", cidx(c));
+                    }
+                    Err(_) => o.push('p'),
+                }
+                match OctColor::from_nibble(v) {
+                    Ok(c) => {
+                        let _ = write!(o, "{}", oidx(c));
+                    }
+                    Err(_) => o.push('e'),
+                }
+                match OctColor::split_byte(v) {
+                    Ok((h, l)) => {
+                        let _ = write!(o, "{}{}", oidx(h), oidx(l));
+                    }
+                    Err(_) => o.push_str("ee"),
+                }
+                o.push('.');
+            }
+        }
+        "enc" => {
+            for c in COLORS {
+                let _ = write!(o, "C{}:{}:{:02x}:{};", cidx(c), c.get_bit_value(), c.get_byte_value(), cidx(c.inverse()));
+            }
+            for c in TRIS {
+                let _ = write!(o, "T{}:{}:{:02x};", tidx(c), c.get_bit_value(), c.get_byte_value());
+            }
+            for c in OCTS {
+                let (r, g, b) = c.rgb();
+                let _ = write!(o, "O{}:{}:{}.{}.{};", oidx(c), c.get_nibble(), r, g, b);
+            }
+            for x in OCTS {
+                for y in OCTS {
+                    let _ = write!(o, "{:02x}", OctColor::colors_byte(x, y));
+                }
+            }
+        }
+        "mask" => {
+            for bwr in [false, true] {
+                for pos in 0..16u32 {
+                    for c in COLORS {
+                        let (m, b) = c.bitmask(bwr, pos);
+                        let _ = write!(o, "{:02x}{:04x}", m, b);
+                    }
+                    for c in TRIS {
+                        let (m, b) = c.bitmask(bwr, pos);
+                        let _ = write!(o, "{:02x}{:04x}", m, b);
+                    }
+                    for c in OCTS {
+                        let (m, b) = c.bitmask(bwr, pos);
+                        let _ = write!(o, "{:02x}{:04x}", m, b);
+                    }
+                    o.push('.');
+                }
+            }
+        }
+        "raw" => {
+            for v in 0..2u8 {
+                let _ = write!(o, "{}", cidx(Color::from(RawU1::new(v))));
+            }
+            o.push(';');
+            for c in COLORS {
+                let r: RawU1 = c.into();
+                let _ = write!(o, "{}", r.into_inner());
+            }
+            o.push(';');
+            for v in 0..4u8 {
+                let _ = write!(o, "{}", tidx(TriColor::from(RawU2::new(v))));
+            }
+            o.push(';');
+            for v in 0..16u8 {
+                match catch_unwind(|| OctColor::from(RawU4::new(v))) {
+                    Ok(c) => {
+                        let _ = write!(o, "{}", oidx(c));
+                    }
+                    Err(_) => o.push('p'),
+                }
+            }
+            o.push(';');
+            for b in [BinaryColor::Off, BinaryColor::On] {
+                let _ = write!(o, "{}{}{}", cidx(Color::from(b)), tidx(TriColor::from(b)), oidx(OctColor::from(b)));
+            }
+            o.push(';');
+            for c in COLORS {
+                let a: Rgb888 = c.into();
+                let b: Rgb565 = c.into();
+                let d: Rgb555 = c.into();
+                let _ = write!(o, "{}.{}.{},{}.{}.{},{}.{}.{};", a.r(), a.g(), a.b(), b.r(), b.g(), b.b(), d.r(), d.g(), d.b());
+            }
+            for c in TRIS {
+                let a: Rgb888 = c.into();
+                let _ = write!(o, "{}.{}.{};", a.r(), a.g(), a.b());
+            }
+            for c in OCTS {
+                let a: Rgb888 = c.into();
+                let _ = write!(o, "{}.{}.{};", a.r(), a.g(), a.b());
+            }
+        }
+        "rgb565" => {
+            let mut h = H0;
+            let mut whites = 0u64;
+            for r in 0..32u8 {
+                for g in 0..64u8 {
+                    for b in 0..32u8 {
+                        let c = cidx(Color::from(Rgb565::new(r, g, b)));
+                        h = mix(h, c as u64);
+                        whites += c as u64;
+                    }
+                }
+            }
+            let _ = write!(o, "H={:016x} W={}", h, whites);
+        }
+        "rgb555" => {
+            let mut h = H0;
+            let mut whites = 0u64;
+            for r in 0..32u8 {
+                for g in 0..32u8 {
+                    for b in 0..32u8 {
+                        let c = cidx(Color::from(Rgb555::new(r, g, b)));
+                        h = mix(h, c as u64);
+                        whites += c as u64;
+                    }
+                }
+            }
+            let _ = write!(o, "H={:016x} W={}", h, whites);
+        }
+        "rgb888" => {
+            // values offset, offset+stride, … below 2^24
+            let stride = num(&a[2]);
+            let mut v = num(&a[3]);
+            let (mut hc, mut ht, mut ho) = (H0, H0, H0);
+            let mut n = 0u64;
+            while v < (1 << 24) {
+                let (r, g, b) = ((v >> 16) as u8, (v >> 8) as u8, v as u8);
+                let p = Rgb888::new(r, g, b);
+                hc = mix(hc, cidx(Color::from(p)) as u64);
+                ht = mix(ht, tidx(TriColor::from(p)) as u64);
+                ho = mix(ho, oidx(OctColor::from(p)) as u64);
+                n += 1;
+                v += stride;
+            }
+            let _ = write!(o, "N={} C={:016x} T={:016x} O={:016x}", n, hc, ht, ho);
+        }
+        "rgbone" => {
+            // single value, all conversions: depth r g b
+            let (r, g, b) = (num(&a[3]) as u8, num(&a[4]) as u8, num(&a[5]) as u8);
+            match a[2].as_str() {
+                "888" => {
+                    let p = Rgb888::new(r, g, b);
+                    let _ = write!(o, "C={} T={} O={}", cidx(Color::from(p)), tidx(TriColor::from(p)), oidx(OctColor::from(p)));
+                }
+                "565" => {
+                    let _ = write!(o, "C={}", cidx(Color::from(Rgb565::new(r, g, b))));
+                }
+                "555" => {
+                    let _ = write!(o, "C={}", cidx(Color::from(Rgb555::new(r, g, b))));
+                }
+                _ => o.push_str("bad-depth"),
+            }
+        }
+        _ => o.push_str("bad-domain"),
+    }
+    o
+}
+
+fn rot(s: &str) -> DisplayRotation {
+    match s {
+        "0" => DisplayRotation::Rotate0,
+        "90" => DisplayRotation::Rotate90,
+        "180" => DisplayRotation::Rotate180,
+        "270" => DisplayRotation::Rotate270,
+        _ => {
+            eprintln!("HARNESS-ERROR bad rotation `{}`", s);
+            std::process::exit(3)
+        }
+    }
+}
+
+/// the points a `setpx` batch draws, in order: mode `grid` = [-3, W+3] x [-3, H+3] of the
+/// rotated size; mode `ext` = coordinate extremes
+fn points(mode: &str, sw: i64, sh: i64) -> Vec<(i32, i32)> {
+    let mut v = vec![];
+    match mode {
+        "grid" => {
+            for y in -3..=(sh + 3) {
+                for x in -3..=(sw + 3) {
+                    v.push((x as i32, y as i32));
+                }
+            }
+        }
+        "ext" => {
+            let xs = [i32::MIN, i32::MIN + 1, -1, 0, sw as i32 - 1, sw as i32, i32::MAX - 1, i32::MAX];
+            let ys = [i32::MIN, i32::MIN + 1, -1, 0, sh as i32 - 1, sh as i32, i32::MAX - 1, i32::MAX];
+            for y in ys {
+                for x in xs {
+                    v.push((x, y));
+                }
+            }
+        }
+        _ => {
+            eprintln!("HARNESS-ERROR bad setpx mode `{}`", mode);
+            std::process::exit(3)
+        }
+    }
+    v
+}
+
+/// after each draw compare the whole exposed buffer with the copy taken before it
+fn track(h: &mut u64, changed: &mut u64, before: &mut Vec<u8>, now: &[u8], p: (i32, i32)) {
+    *h = mix(*h, p.0 as u32 as u64);
+    *h = mix(*h, p.1 as u32 as u64);
+    for (i, (a, b)) in before.iter().zip(now.iter()).enumerate() {
+        if a != b {
+            *h = mix(*h, i as u64);
+            *h = mix(*h, *b as u64);
+            *changed += 1;
+        }
+    }
+    before.copy_from_slice(now);
+}
+
+macro_rules! alias_list {
+    ($m:ident) => {
+        $m!("epd1in02", epd_waveshare::epd1in02::Display1in02, Color, bw);
+        $m!("epd1in54", epd_waveshare::epd1in54::Display1in54, Color, bw);
+        $m!("epd1in54_v2", epd_waveshare::epd1in54_v2::Display1in54, Color, bw);
+        $m!("epd1in54b", epd_waveshare::epd1in54b::Display1in54b, Color, bw);
+        $m!("epd1in54c", epd_waveshare::epd1in54c::Display1in54c, Color, bw);
+        $m!("epd2in13_v2", epd_waveshare::epd2in13_v2::Display2in13, Color, bw);
+        $m!("epd2in13b_v4", epd_waveshare::epd2in13b_v4::Display2in13b, TriColor, tri);
+        $m!("epd2in13bc", epd_waveshare::epd2in13bc::Display2in13bc, TriColor, tri);
+        $m!("epd2in66b", epd_waveshare::epd2in66b::Display2in66b, TriColor, tri);
+        $m!("epd2in7", epd_waveshare::epd2in7::Display2in7, Color, bw);
+        $m!("epd2in7_v2", epd_waveshare::epd2in7_v2::Display2in7, Color, bw);
+        $m!("epd2in7b", epd_waveshare::epd2in7b::Display2in7b, Color, bw);
+        $m!("epd2in9", epd_waveshare::epd2in9::Display2in9, Color, bw);
+        $m!("epd2in9_v2", epd_waveshare::epd2in9_v2::Display2in9, Color, bw);
+        $m!("epd2in9b_v4", epd_waveshare::epd2in9b_v4::Display2in9b, TriColor, tri);
+        $m!("epd2in9bc", epd_waveshare::epd2in9bc::Display2in9bc, Color, bw);
+        $m!("epd2in9d", epd_waveshare::epd2in9d::Display2in9d, Color, bw);
+        $m!("epd3in7", epd_waveshare::epd3in7::Display3in7, Color, bw);
+        $m!("epd4in2", epd_waveshare::epd4in2::Display4in2, Color, bw);
+        $m!("epd5in65f", epd_waveshare::epd5in65f::Display5in65f, OctColor, oct);
+        $m!("epd5in83_v2", epd_waveshare::epd5in83_v2::Display5in83, Color, bw);
+        $m!("epd5in83b_v2", epd_waveshare::epd5in83b_v2::Display5in83, TriColor, tri);
+        $m!("epd7in3f", epd_waveshare::epd7in3f::Display7in3f, OctColor, oct);
+        $m!("epd7in5", epd_waveshare::epd7in5::Display7in5, Color, bw);
+        $m!("epd7in5_hd", epd_waveshare::epd7in5_hd::Display7in5, Color, bw);
+        $m!("epd7in5_v2", epd_waveshare::epd7in5_v2::Display7in5, Color, bw);
+        $m!("epd7in5b_v2", epd_waveshare::epd7in5b_v2::Display7in5, TriColor, tri);
+    };
+}
+
+trait ColIdx: Sized + Copy {
+    fn of(i: u64) -> Self;
+}
+impl ColIdx for Color {
+    fn of(i: u64) -> Self {
+        COLORS[i as usize % 2]
+    }
+}
+impl ColIdx for TriColor {
+    fn of(i: u64) -> Self {
+        TRIS[i as usize % 3]
+    }
+}
+impl ColIdx for OctColor {
+    fn of(i: u64) -> Self {
+        OCTS[i as usize % 8]
+    }
+}
+
+fn load<const W: u32, const H: u32, const B: bool, const N: usize, C: ColorType + PixelColor>(
+    d: &mut Display<W, H, B, N, C>,
+    bytes: &[u8],
+) {
+    // the buffer is private: fill it through the exposed slice pointer (same allocation, the
+    // Display is exclusively borrowed here)
+    let p = d.buffer().as_ptr() as *mut u8;
+    for (i, b) in bytes.iter().enumerate() {
+        unsafe { *p.add(i) = *b };
+    }
+}
+
+fn alias_table() -> String {
+    let mut o = String::new();
+    macro_rules! row {
+        ($name:expr, $ty:ty, $col:ty, bw) => {{
+            let d = Box::new(<$ty>::default());
+            let s = d.size();
+            let zero = d.buffer().iter().all(|b| *b == 0);
+            let _ = write!(o, "{}:{}:{}:{}:{}:bw:-:-:-;", $name, s.width, s.height, d.buffer().len(), zero as u8);
+        }};
+        ($name:expr, $ty:ty, $col:ty, oct) => {{
+            let d = Box::new(<$ty>::default());
+            let s = d.size();
+            let zero = d.buffer().iter().all(|b| *b == 0);
+            let _ = write!(o, "{}:{}:{}:{}:{}:oct:-:-:-;", $name, s.width, s.height, d.buffer().len(), zero as u8);
+        }};
+        ($name:expr, $ty:ty, $col:ty, tri) => {{
+            let mut d = Box::new(<$ty>::default());
+            let s = d.size();
+            let zero = d.buffer().iter().all(|b| *b == 0);
+            let (l1, l2) = (d.bw_buffer().len(), d.chromatic_buffer().len());
+            // halves in that order: bw_buffer is the first half of buffer()
+            let order = d.bw_buffer().as_ptr() == d.buffer().as_ptr()
+                && d.chromatic_buffer().as_ptr() == unsafe { d.buffer().as_ptr().add(l1) };
+            d.set_pixel(Pixel(Point::new(0, 0), TriColor::Chromatic));
+            let bwr = d.bw_buffer()[0] & 0x80 == 0;
+            let _ = write!(o, "{}:{}:{}:{}:{}:tri:{}:{}:{}:{};", $name, s.width, s.height, d.buffer().len(), zero as u8, bwr as u8, l1, l2, order as u8);
+        }};
+    }
+    alias_list!(row);
+    o
+}
+
+fn setpx_alias(name: &str, rotation: &str, col: u64, seed: u64, mode: &str) -> Option<String> {
+    let mut out: Option<String> = None;
+    macro_rules! go {
+        ($n:expr, $ty:ty, $col:ty, $k:ident) => {
+            if name == $n && out.is_none() {
+                let mut d = Box::new(<$ty>::default());
+                let len = d.buffer().len();
+                load(&mut *d, &prng_bytes(seed, len));
+                d.set_rotation(rot(rotation));
+                let s = d.size();
+                let pts = points(mode, s.width as i64, s.height as i64);
+                let mut before = d.buffer().to_vec();
+                let (mut h, mut changed, mut n) = (H0, 0u64, 0u64);
+                let mut pan = "none".to_string();
+                let mut npan = 0u64;
+                let c = <$col as ColIdx>::of(col);
+                for p in pts {
+                    let r = catch_unwind(AssertUnwindSafe(|| {
+                        if seed % 2 == 1 {
+                            let _ = d.draw_iter([Pixel(Point::new(p.0, p.1), c)]);
+                        } else {
+                            d.set_pixel(Pixel(Point::new(p.0, p.1), c));
+                        }
+                    }));
+                    if r.is_err() {
+                        if npan == 0 {
+                            pan = format!("{}.{}", p.0, p.1);
+                        }
+                        npan += 1;
+                        h = mix(h, 0x70616e6963);
+                    }
+                    track(&mut h, &mut changed, &mut before, d.buffer(), p);
+                    n += 1;
+                }
+                out = Some(format!("H={:016x} N={} C={} P={} NP={} S={}.{}", h, n, changed, pan, npan, s.width, s.height));
+            }
+        };
+    }
+    alias_list!(go);
+    out
+}
+
+fn setpx_var<C: ColorType + PixelColor + ColIdx>(w: u32, h: u32, bwr: bool, rotation: &str, col: u64, seed: u64, mode: &str, extra: usize) -> String {
+    // the slice handed to VarDisplay::new may be longer than needed; bytes beyond buffer() must stay untouched
+    let probe_len = {
+        let mut tmp = vec![0u8; 1 << 16];
+        match VarDisplay::<C>::new(w, h, &mut tmp, bwr) {
+            Ok(d) => d.buffer().len(),
+            Err(_) => return "R=err".into(),
+        }
+    };
+    let mut store = prng_bytes(seed, probe_len + extra);
+    let tail_before = store[probe_len..].to_vec();
+    let res = {
+        let mut d = match VarDisplay::<C>::new(w, h, &mut store, bwr) {
+            Ok(d) => d,
+            Err(_) => return "R=err".into(),
+        };
+        d.set_rotation(rot(rotation));
+        let s = d.size();
+        let pts = points(mode, s.width as i64, s.height as i64);
+        let mut before = d.buffer().to_vec();
+        let (mut hh, mut changed, mut n) = (H0, 0u64, 0u64);
+        let mut pan = "none".to_string();
+        let mut npan = 0u64;
+        let c = C::of(col);
+        for p in pts {
+            let r = catch_unwind(AssertUnwindSafe(|| {
+                d.set_pixel(Pixel(Point::new(p.0, p.1), c));
+            }));
+            if r.is_err() {
+                if npan == 0 {
+                    pan = format!("{}.{}", p.0, p.1);
+                }
+                npan += 1;
+                hh = mix(hh, 0x70616e6963);
+            }
+            track(&mut hh, &mut changed, &mut before, d.buffer(), p);
+            n += 1;
+        }
+        format!("H={:016x} N={} C={} P={} NP={} S={}.{}", hh, n, changed, pan, npan, s.width, s.height)
+    };
+    let tail_ok = store[probe_len..] == tail_before[..];
+    format!("{} L={} TAIL={}", res, probe_len, tail_ok as u8)
+}
+
+fn vardisp_one<C: ColorType + PixelColor>(w: u32, h: u32, len: usize, bwr: bool, tri: bool) -> String {
+    let mut store = vec![0u8; len];
+    match VarDisplay::<C>::new(w, h, &mut store, bwr) {
+        Err(_) => "R=err".into(),
+        Ok(d) => {
+            let _ = tri;
+            format!("R=ok L={}", d.buffer().len())
+        }
+    }
+}
+
+/// VarDisplay::new over a grid of geometries and supplied lengths; every pixel of every accepted
+/// buffer is drawn (rotation 0) to see whether drawing panics
+fn vargrid(maxw: u32, maxh: u32) -> String {
+    let (mut hsh, mut accepted, mut panics) = (H0, 0u64, 0u64);
+    let mut first = "none".to_string();
+    fn one<C: ColorType + PixelColor + ColIdx>(w: u32, h: u32, kind: u64, hsh: &mut u64, accepted: &mut u64, panics: &mut u64, first: &mut String) {
+        let req = {
+            let mut tmp = vec![0u8; 1 << 16];
+            VarDisplay::<C>::new(w, h, &mut tmp, false).map(|d| d.buffer().len()).unwrap_or(usize::MAX)
+        };
+        let lens = [req.saturating_sub(1), req, req + 1, 0];
+        for (li, len) in lens.iter().enumerate() {
+            if li == 0 && req == 0 {
+                *hsh = mix(*hsh, 7);
+                continue;
+            }
+            let mut store = vec![0u8; *len];
+            match VarDisplay::<C>::new(w, h, &mut store, false) {
+                Err(_) => *hsh = mix(*hsh, 0),
+                Ok(mut d) => {
+                    *accepted += 1;
+                    *hsh = mix(*hsh, 1 + d.buffer().len() as u64);
+                    let mut bad = false;
+                    'outer: for y in 0..h {
+                        for x in 0..w {
+                            let r = catch_unwind(AssertUnwindSafe(|| {
+                                d.set_pixel(Pixel(Point::new(x as i32, y as i32), C::of(1)));
+                            }));
+                            if r.is_err() {
+                                bad = true;
+                                if *first == "none" {
+                                    *first = format!("{}.{}.{}.{}.{}.{}", kind, w, h, len, x, y);
+                                }
+                                break 'outer;
+                            }
+                        }
+                    }
+                    if bad {
+                        *panics += 1;
+                        *hsh = mix(*hsh, 99);
+                    }
+                }
+            }
+        }
+    }
+    for w in 0..=maxw {
+        for h in 0..=maxh {
+            one::<Color>(w, h, 0, &mut hsh, &mut accepted, &mut panics, &mut first);
+            one::<TriColor>(w, h, 1, &mut hsh, &mut accepted, &mut panics, &mut first);
+            one::<OctColor>(w, h, 2, &mut hsh, &mut accepted, &mut panics, &mut first);
+        }
+    }
+    format!("H={:016x} A={} PANICS={} FIRST={}", hsh, accepted, panics, first)
+}
 
 pub fn run(sc: &Scenario, sim: &Shared) {
+    for (i, a) in sc.ops.iter().enumerate() {
+        let text: String = match a[0].as_str() {
+            "rect" => {
+                let v: Vec<u32> = a[1..].iter().map(|s| num(s) as u32).collect();
+                let ra = Rect::new(v[0], v[1], v[2], v[3]);
+                let rb = Rect::new(v[4], v[5], v[6], v[7]);
+                let i1 = catch_unwind(|| ra.intersect(rb)).map_err(|_| ());
+                let i2 = catch_unwind(|| rb.intersect(ra)).map_err(|_| ());
+                let s = catch_unwind(|| ra.sub_offset(v[8], v[9])).map_err(|_| ());
+                let e = match &i1 {
+                    Ok(r) => (r.is_empty() as u8).to_string(),
+                    Err(_) => "-".into(),
+                };
+                format!("I={} J={} S={} E={} EA={}", rect_str(i1), rect_str(i2), rect_str(s), e, ra.is_empty() as u8)
+            }
+            "rectgrid" => {
+                let n = num(&a[1]) as u32;
+                let mut h = H0;
+                let mut cnt = 0u64;
+                for ax in 0..=n {
+                    for ay in 0..=n {
+                        for aw in 0..=n {
+                            for ah in 0..=n {
+                                let ra = Rect::new(ax, ay, aw, ah);
+                                for bx in 0..=n {
+                                    for by in 0..=n {
+                                        for bw in 0..=n {
+                                            for bh in 0..=n {
+                                                let r = ra.intersect(Rect::new(bx, by, bw, bh));
+                                                h = mix(h, r.x as u64);
+                                                h = mix(h, r.y as u64);
+                                                h = mix(h, r.w as u64);
+                                                h = mix(h, r.h as u64);
+                                                h = mix(h, r.is_empty() as u64);
+                                                cnt += 1;
+                                            }
+                                        }
+                                    }
+                                }
+                            }
+                        }
+                    }
+                }
+                format!("H={:016x} N={}", h, cnt)
+            }
+            "color" => color_domain(&a[1], a),
+            "alias" => alias_table(),
+            "setpx" => {
+                // setpx,<alias|var:w:h:kind:bwr:extra>,<rot>,<colour>,<seed>,<mode>
+                let target = &a[1];
+                if let Some(rest) = target.strip_prefix("var:") {
+                    let p: Vec<&str> = rest.split(':').collect();
+                    let (w, h) = (num(p[0]) as u32, num(p[1]) as u32);
+                    let bwr = p[3] == "1";
+                    let extra = num(p[4]) as usize;
+                    match p[2] {
+                        "bw" => setpx_var::<Color>(w, h, bwr, &a[2], num(&a[3]), num(&a[4]), &a[5], extra),
+                        "tri" => setpx_var::<TriColor>(w, h, bwr, &a[2], num(&a[3]), num(&a[4]), &a[5], extra),
+                        "oct" => setpx_var::<OctColor>(w, h, bwr, &a[2], num(&a[3]), num(&a[4]), &a[5], extra),
+                        _ => "bad-kind".into(),
+                    }
+                } else {
+                    setpx_alias(target, &a[2], num(&a[3]), num(&a[4]), &a[5]).unwrap_or_else(|| "bad-alias".into())
+                }
+            }
+            "setone" => {
+                // setone,<w>,<h>,<kind>,<bwr>,<rot>,<colour>,<px>,<py>,<buf>: one draw on a VarDisplay, full result
+                let (w, h) = (num(&a[1]) as u32, num(&a[2]) as u32);
+                let bwr = a[4] == "1";
+                let (px, py) = (inum(&a[7]) as i32, inum(&a[8]) as i32);
+                let mut store = crate::scen::make_buf(&a[9]).unwrap();
+                fn go<C: ColorType + PixelColor + ColIdx>(w: u32, h: u32, bwr: bool, r: &str, col: u64, px: i32, py: i32, store: &mut Vec<u8>) -> String {
+                    let res = {
+                        let mut d = match VarDisplay::<C>::new(w, h, store, bwr) {
+                            Ok(d) => d,
+                            Err(_) => return "R=err".into(),
+                        };
+                        d.set_rotation(rot(r));
+                        catch_unwind(AssertUnwindSafe(|| d.set_pixel(Pixel(Point::new(px, py), C::of(col))))).is_ok()
+                    };
+                    if res {
+                        format!("R=ok B={}", store.iter().map(|b| format!("{:02x}", b)).collect::<String>())
+                    } else {
+                        "R=panic".into()
+                    }
+                }
+                match a[3].as_str() {
+                    "bw" => go::<Color>(w, h, bwr, &a[5], num(&a[6]), px, py, &mut store),
+                    "tri" => go::<TriColor>(w, h, bwr, &a[5], num(&a[6]), px, py, &mut store),
+                    "oct" => go::<OctColor>(w, h, bwr, &a[5], num(&a[6]), px, py, &mut store),
+                    _ => "bad-kind".into(),
+                }
+            }
+            "vardisp" => {
+                let (w, h, len) = (num(&a[1]) as u32, num(&a[2]) as u32, num(&a[4]) as usize);
+                match a[3].as_str() {
+                    "bw" => vardisp_one::<Color>(w, h, len, false, false),
+                    "tri" => {
+                        let mut store = vec![0u8; len];
+                        match VarDisplay::<TriColor>::new(w, h, &mut store, false) {
+                            Err(_) => "R=err".into(),
+                            Ok(d) => format!("R=ok L={} BW={} CH={}", d.buffer().len(), d.bw_buffer().len(), d.chromatic_buffer().len()),
+                        }
+                    }
+                    "oct" => vardisp_one::<OctColor>(w, h, len, false, false),
+                    _ => "bad-kind".into(),
+                }
+            }
+            "vargrid" => vargrid(num(&a[1]) as u32, num(&a[2]) as u32),
+            "buflen" => {
+                let (mw, mh) = (num(&a[1]) as usize, num(&a[2]) as usize);
+                let mut h = H0;
+                for w in 0..=mw {
+                    for hh in 0..=mh {
+                        h = mix(h, epd_waveshare::buffer_len(w, hh) as u64);
+                    }
+                }
+                format!("H={:016x}", h)
+            }
+            _ => "unsup".into(),
+        };
+        let mut s = sim.borrow_mut();
+        s.out.push_str(&format!("X {} {}\n", i, text));
+    }
+}
+
+pub fn run_big(sc: &Scenario, sim: &Shared) {
     let mut s = sim.borrow_mut();
     for (i, _op) in sc.ops.iter().enumerate() {
         s.out.push_str(&format!("E {} unsup bg=-\n", i));
     }
-}
-pub fn run_big(sc: &Scenario, sim: &Shared) {
-    run(sc, sim)
 }
